@@ -6,8 +6,6 @@ ENGINES = [
     ('<sync::CopiaSync as sync::Sync>::delta', 'sync'),
     ('async_sync::AsyncCopiaSync::delta', 'async'),
 ]
-LOOKUPS = ('signature::SignatureTable::find_match', 'signature::SignatureTable::find_match_optimized',
-           'signature::SignatureTable::find_match_strong', 'signature::SignatureTable::find_weak_match')
 
 
 def sig(os_):
@@ -18,16 +16,117 @@ def confirming_lookups(F):
     """{method path: (bool confirming, reason)}: a lookup is confirming iff every Some it can return is guarded by
     sig.strong_hash == StrongHash::compute(<its own data parameter>)."""
     out = {}
-    for m in LOOKUPS:
+    methods = lookup_methods(F)
+    # delegating lookups need the verdict of their delegate: judge until stable (pessimistic start)
+    for _ in range(len(methods) + 1):
+        before = dict(out)
+        for m in methods:
+            _judge_lookup(F, m, out)
+        if out == before:
+            break
+    return out
+
+
+def lookup_methods(F):
+    """Every SignatureTable method returning an Option: the set is computed from the facts, not named."""
+    return sorted(p for p, b in F.bodies.items()
+                  if p.startswith('signature::SignatureTable::') and b.kind == 'fn' and b.local_ty(0).startswith('std::option::Option<'))
+
+
+def returns_block_index(F, m, depth=0):
+    """For a lookup returning Option<u32>: every Some it returns carries the `index` field of a signature entry."""
+    b = F.body(m)
+    if b is None or depth > 3 or not b.local_ty(0).startswith('std::option::Option<u32>'):
+        return False
+    fl = flow_of(b)
+    n = 0
+    for (rb, kind, data) in ret_defs(b):
+        if kind == 'assign':
+            rv = data
+            if rv['k'] == 'agg' and rv.get('vname') == 'None':
+                continue
+            if rv['k'] == 'agg' and rv.get('vname') == 'Some':
+                os_ = [o for o in fl.origins(rv['ops'][0]) if o.kind != 'comb']
+                for o in os_:
+                    if o.path[-1:] == ('index',):
+                        continue
+                    if o.kind == 'call' and o.key in lookup_methods(F) and returns_block_index(F, o.key, depth + 1):
+                        continue
+                    return False
+                n += 1
+                continue
+            return False
+        c = callee(data)
+        if c == 'std::ops::FromResidual::from_residual':
+            continue
+        if c in lookup_methods(F):
+            if not returns_block_index(F, c, depth + 1):
+                return False
+            n += 1
+            continue
+        if c.startswith('std::option::Option::<') and c.endswith('::map'):
+            good = False
+            for o in fl.origins(data['args'][1]):
+                cb_ = F.body(o.key) if o.kind == 'agg' else None
+                if cb_ is not None:
+                    ro = [x for x in flow_of(cb_).origins(0) if x.kind != 'comb']
+                    good = bool(ro) and all(x.kind == 'param' and x.path[-1:] == ('index',) for x in ro)
+            src = [o for o in fl.origins(data['args'][0]) if o.kind != 'comb']
+            if not (good and src and all(o.kind == 'call' and o.key in lookup_methods(F) for o in src)):
+                return False
+            n += 1
+            continue
+        return False
+    return n > 0
+
+
+def lookup_data_arg(F, lt):
+    """the operand a lookup call passes for the callee's window parameter (&[u8]), by the callee's signature"""
+    b = F.body(callee(lt))
+    di = data_param(b) if b is not None else None
+    return lt['args'][di - 1] if di is not None else None
+
+
+def lookup_weak_arg(F, lt):
+    """the operand passed for the callee's first u32 parameter (the weak key)"""
+    b = F.body(callee(lt))
+    if b is None:
+        return None
+    wi = next((i for i in range(1, b.argc + 1) if b.local_ty(i) == 'u32'), None)
+    return lt['args'][wi - 1] if wi is not None else None
+
+
+def data_param(b):
+    return next((i for i in range(1, b.argc + 1) if b.local_ty(i) == '&[u8]'), None)
+
+
+def _judge_lookup(F, m, out):
+    if True:
         b = F.body(m)
         if b is None:
-            continue
+            return
         fl = flow_of(b)
         cfg = fl.cfg
-        data_i = next((i for i in range(1, b.argc + 1) if b.local_ty(i) == '&[u8]'), None)
+        data_i = data_param(b)
         if data_i is None:
             out[m] = (False, 'no data parameter')
-            continue
+            return
+
+        def delegates(op):
+            """the operand is the result of other lookups that were given this lookup's own data: [(callee, ok)]"""
+            res = []
+            os_ = [o for o in fl.origins(op) if o.kind != 'comb']
+            if not os_:
+                return None
+            for o in os_:
+                mb = F.body(o.key) if o.kind == 'call' else None
+                if mb is None or o.key not in lookup_methods(F):
+                    return None
+                di = data_param(mb)
+                fwd = di is not None and (lambda a: bool(a) and all(x.kind == 'param' and x.key == data_i and not x.path for x in a))(
+                    call_arg_origins(fl, o.bb, di - 1))
+                res.append((o.key, fwd and out.get(o.key, (False, ''))[0]))
+            return res
 
         def is_strong_of_data(os_, flow=fl, di=data_i):
             ok = bool(os_)
@@ -100,13 +199,28 @@ def confirming_lookups(F):
                         good = False
                         why.append('Iterator::find predicate is not the strong-hash comparison with compute(data)')
                     continue
+                dl = None
+                if c in lookup_methods(F):
+                    mb = F.body(c)
+                    di = data_param(mb)
+                    a = call_arg_origins(fl, rb, di - 1) if di is not None else None
+                    fwd = bool(a) and all(x.kind == 'param' and x.key == data_i and not x.path for x in a)
+                    dl = [(c, fwd and out.get(c, (False, ''))[0])]
+                elif c.startswith('std::option::Option::<') and c.split('::')[-1] in ('map', 'copied', 'cloned', 'filter', 'as_ref'):
+                    dl = delegates(data['args'][0])
+                if dl is not None:
+                    n_some += 1
+                    for (k, okk) in dl:
+                        if not okk:
+                            good = False
+                            why.append('delegates to %s, which is not confirming for this window' % k.split('::')[-1])
+                    continue
                 good = False
                 why.append('returns the result of %s' % c)
         if n_some == 0:
             good = False
             why.append('no Some return recognised')
         out[m] = (good, '; '.join(sorted(set(why))))
-    return out
 
 
 class Scan:
@@ -123,7 +237,8 @@ class Scan:
         self.copies = fl.calls_to('delta::Delta::push_copy')
         self.lit_bytes = fl.calls_to('delta::Delta::push_literal_byte')
         self.lits = fl.calls_to('delta::Delta::push_literal')
-        self.lookups = fl.calls(lambda c: c in LOOKUPS)
+        lm = set(lookup_methods(F))
+        self.lookups = fl.calls(lambda c: c in lm)
         self.headers = fl.calls_to('delta::Delta::with_checksum', 'delta::Delta::new')
         self.rolls = fl.calls_to('checksum::FastRollingChecksum::roll', 'checksum::RollingChecksum::roll')
         self.news = fl.calls_to('checksum::FastRollingChecksum::new', 'checksum::RollingChecksum::new')
